@@ -29,7 +29,7 @@ def cases(draw, tier):
     eta = draw(st.floats(math.log(1e-4), 0.0).map(lambda v: float(f"{math.exp(v):.6g}")) | st.sampled_from([1e-4, 1.0, 0.01]))
     return dict(kind=kind, fan_in=fi, fan_out=fo, kernel=k, depth=depth, eta=eta, opt=draw(st.sampled_from(["Adam", "AdamW"])),
                 constraint=draw(st.sampled_from(["default", None])), bias=draw(st.booleans()), seed=draw(st.integers(0, 10**6)),
-                batch=draw(st.sampled_from([None, 1])))
+                batch=draw(st.sampled_from([None, 1])), container=draw(st.sampled_from(["padded", "padded", "shared-instance", "module-list"])))
 
 
 def run(c) -> CaseResult:
@@ -55,8 +55,13 @@ def run(c) -> CaseResult:
         model = layer
         if c["depth"] is not None:
             # the layer sits first in a depth container padded with layers whose parameters get no gradient
-            pads = [uu.Linear(1, 1, dtype=torch.float64) for _ in range(c["depth"] - 1)]
-            model = uu.DepthSequential(layer, *pads)
+            kind_c = c.get("container", "padded")
+            if kind_c == "shared-instance":
+                model = uu.DepthSequential(*[layer] * c["depth"])   # a weight-shared layer applied depth times
+            else:
+                pads = [uu.Linear(1, 1, dtype=torch.float64) for _ in range(c["depth"] - 1)]
+                model = uu.DepthSequential(layer, *pads) if kind_c == "padded" else uu.DepthModuleList([layer] + pads)
+            res.labels.append(f"container={kind_c}")
         params = [p for p in layer.parameters()]
         if c["bias"]:
             params = [layer.weight]   # train the weight only: the statement is about the weight update
@@ -88,7 +93,7 @@ CHECK = Check(
     id="C12",
     parts=[Part("adam-step", run, strategy=cases, budget={"quick": 600, "thorough": 12000})],
     rule=("Hypothesis: layer in {Linear, LinearReadout, Conv1d with input length = kernel size}, fan_in/fan_out in [1,4096] (product "
-          "<= 2^20), kernel 1-9, depth None or 1..64 (layer first in a DepthSequential padded with layers that get no gradient), eta "
+          "<= 2^20), kernel 1-9, depth None or 1..64 (layer first in a DepthSequential / DepthModuleList padded with layers that get no gradient, or one weight-shared instance repeated depth times), eta "
           "log-uniform in [1e-4,1], +-1 inputs, upstream gradient magnitudes in [1e-3,1e3] with random signs, library Adam/AdamW with "
           "eps=0, weight_decay=0, float64, default or None constraint. Oracle: layer(x) after step minus before == -eta/sqrt(depth) x "
           "sign(g) elementwise (1e-9 of eta). Non-trivial = fan_in != fan_out or kernel > 1 or a depth."),
